@@ -90,21 +90,7 @@ func featuresIn(n *wire.N, into map[string]bool) {
 	if n == nil {
 		return
 	}
-	k := n.K
-	if n.K == "oxm" {
-		cls := uint16(n.U["Class"])
-		if cls == 0xffff {
-			k = fmt.Sprintf("oxm:exp:%d", n.U["Field"])
-		} else if i := wire.OxmTable[[2]uint16{cls, uint16(n.U["Field"])}]; i != nil {
-			k = "oxm:" + i.Name
-		}
-		if n.U["HasMask"] == 1 {
-			k += "/masked"
-		}
-		if i := wire.OxmTable[[2]uint16{cls, uint16(n.U["Field"])}]; i != nil && i.Width == 0 {
-			k += fmt.Sprintf("/len%d", len(n.B["Value"]))
-		}
-	}
+	k := featureKind(n)
 	into[k] = true
 	for f := range n.U {
 		into[k+"."+f] = true
@@ -128,6 +114,27 @@ func featuresIn(n *wire.N, into map[string]bool) {
 	}
 }
 
+// featureKind names a node for featuresIn: its kind, and for match fields the field's name, mask
+// flag and (variable-length fields) payload length.
+func featureKind(n *wire.N) string {
+	k := n.K
+	if n.K == "oxm" {
+		cls := uint16(n.U["Class"])
+		if cls == 0xffff {
+			k = fmt.Sprintf("oxm:exp:%d", n.U["Field"])
+		} else if i := wire.OxmTable[[2]uint16{cls, uint16(n.U["Field"])}]; i != nil {
+			k = "oxm:" + i.Name
+		}
+		if n.U["HasMask"] == 1 {
+			k += "/masked"
+		}
+		if i := wire.OxmTable[[2]uint16{cls, uint16(n.U["Field"])}]; i != nil && i.Width == 0 {
+			k += fmt.Sprintf("/len%d", len(n.B["Value"]))
+		}
+	}
+	return k
+}
+
 // structureKey is the canonical print of a tree's structure without its values.
 func structureKey(n *wire.N) string {
 	fs := map[string]bool{}
@@ -146,7 +153,24 @@ func structureKey(n *wire.N) string {
 type baseSelector struct {
 	seen  map[string]bool
 	bases []*wire.N
+	fresh []map[string]bool // per base: the features it was chosen for
 	max   int
+}
+
+// vary runs the single-field value enumeration over every base, each restricted to the fields the
+// base was chosen for (a field already varied under the same root kind in an earlier base is left at
+// its base value), and returns the number of variations.
+func (s *baseSelector) vary(seed int64, expired func() bool, f func(t *wire.N, what string)) (n int64, complete bool) {
+	for i, base := range s.bases {
+		if expired() {
+			return n, false
+		}
+		fresh := s.fresh[i]
+		corpus.VariationsOf(base, func(t *wire.N) []wire.Mark { _, m := wire.Encode(t); return m }, seed,
+			func(node *wire.N, field string) bool { return fresh[featureKind(node)+"."+field] },
+			func(t *wire.N, what string) { n++; f(t, what) })
+	}
+	return n, true
 }
 
 func (s *baseSelector) offer(n *wire.N) {
@@ -159,15 +183,16 @@ func (s *baseSelector) offer(n *wire.N) {
 	fs := map[string]bool{}
 	featuresIn(n, fs)
 	root := rootSig(n)
-	fresh := false
+	fresh := map[string]bool{}
 	for f := range fs {
 		if !s.seen[root+"|"+f] {
 			s.seen[root+"|"+f] = true
-			fresh = true
+			fresh[f] = true
 		}
 	}
-	if fresh {
+	if len(fresh) > 0 {
 		s.bases = append(s.bases, n)
+		s.fresh = append(s.fresh, fresh)
 	}
 }
 
